@@ -1110,6 +1110,368 @@ def stream_grid(ctx):
     return s
 
 
+# ---------------------------------------------------------------- stream 6: Fourier transforms, external potential, cutoffs
+
+def stream_planewave(ctx):
+    import numpy
+    of = ctx.of
+    from openfermion.utils import Grid
+    from openfermion.hamiltonians import jellium as jm
+    import importlib
+    pwh = importlib.import_module('openfermion.hamiltonians.plane_wave_hamiltonian')
+    from openfermion.transforms.repconversions import fourier_transforms as ftm
+    from openfermion.chem.molecular_data import periodic_hash_table
+    s = Stream('fourier-planewave', 'fourier_transform / inverse_fourier_transform of random one-body operators vs the substitution '
+               'c_v^dagger = N^-1/2 sum_m a_m^dagger exp(-i k_v r_m) evaluated with numpy, round trip, fourier_transform(plane-wave jellium) = '
+               'dual-basis jellium; dual_basis_external_potential / plane_wave_external_potential / plane_wave_hamiltonian / '
+               'jordan_wigner_dual_basis_hamiltonian with nuclei vs the docstring formula; e_cutoff / non_periodic / period_cutoff in '
+               'plane_wave_kinetic / plane_wave_potential vs the formula over the Model index structure; wigner_seitz_length_scale and '
+               'hypercube_grid_with_given_wigner_seitz_radius_and_filling; float comparisons at 1e-9')
+    rng = rng_for(ctx.seed, 'c13-pw')
+    pi = math.pi
+    grids = [([2], 1.5), ([3], 1.5), ([4], 1.1), ([2, 2], 1.0), ([2, 2], [[1.3, 0.5], [0.0, 0.9]])]
+    if ctx.tier == 'thorough' or ctx.drift:
+        grids += [([5], 1.1), ([3, 2], 1.25), ([3, 3], 2.0)]
+    for L, scale in grids:
+        dim = len(L)
+        cubic = isinstance(scale, float)
+        S = numpy.diag([scale] * dim) if cubic else numpy.array(scale, dtype=float)
+        g = Grid(dim, tuple(L), scale if cubic else numpy.array(scale, dtype=float))
+        V = abs(float(numpy.linalg.det(S)))
+        B = 2 * pi * numpy.linalg.inv(S).T
+        npts = int(numpy.prod(L))
+        pts = list(itertools.product(*[range(l) for l in L]))
+        strides = [int(numpy.prod(L[:i])) for i in range(dim)]
+        by_oid = {sum(p[i] * strides[i] for i in range(dim)): p for p in pts}
+
+        def kvec(idx):
+            return B @ numpy.array([idx[i] - L[i] // 2 for i in range(dim)], dtype=float)
+
+        def rvec(idx):
+            return S @ numpy.array([(idx[i] - L[i] // 2) / L[i] for i in range(dim)], dtype=float)
+        # c_v^dagger = sum_m F[v, m] a_m^dagger ;  a_v^dagger = sum_m G[v, m] c_m^dagger
+        F = numpy.array([[numpy.exp(-1j * float(kvec(by_oid[v]).dot(rvec(by_oid[m])))) for m in range(npts)]
+                         for v in range(npts)]) / math.sqrt(npts)
+        G = numpy.array([[numpy.exp(1j * float(kvec(by_oid[m]).dot(rvec(by_oid[v])))) for m in range(npts)]
+                         for v in range(npts)]) / math.sqrt(npts)
+        for spinless in (True, False):
+            nsp = 1 if spinless else 2
+            nq = npts * nsp
+            if nq > 9:
+                continue
+            c = {'length': L, 'scale': scale, 'spinless': spinless}
+            s.case(c)
+            s.count('grids')
+            # ---- one-body Fourier transforms
+            T = numpy.zeros((nq, nq), complex)
+            H = of.FermionOperator()
+            for sp in range(nsp):
+                for v in range(npts):
+                    for w in range(npts):
+                        if rng.random() < 0.6:
+                            z = complex(rng.randint(-4, 4) / 4, rng.randint(-4, 4) / 4)
+                            if z != 0:
+                                T[v * nsp + sp, w * nsp + sp] = z
+                                H += of.FermionOperator(((v * nsp + sp, 1), (w * nsp + sp, 0)), z)
+            for name, fn, M in (('fourier_transform', ftm.fourier_transform, F), ('inverse_fourier_transform', ftm.inverse_fourier_transform, G)):
+                try:
+                    Ht = fn(H, g, spinless)
+                except Exception as e:  # noqa: BLE001
+                    s.violate(name + ' raised', c, repr(e))
+                    continue
+                expect = {}
+                for sp in range(nsp):
+                    Tsp = T[sp::nsp, sp::nsp]
+                    Tt = M.T @ Tsp @ M.conj()
+                    for m in range(npts):
+                        for n in range(npts):
+                            if abs(Tt[m, n]) > 1e-12:
+                                expect[((m * nsp + sp, 1), (n * nsp + sp, 0))] = Tt[m, n]
+                worst, wk = close_dicts(s, float_terms(Ht), expect)
+                s.count('oracle:' + name)
+                if worst > TOL:
+                    s.violate(name + ' of a one-body operator is not the documented substitution', c,
+                              {'term': wk, 'implementation': float_terms(Ht).get(wk), 'expected': expect.get(wk)})
+            try:
+                back = ftm.inverse_fourier_transform(ftm.fourier_transform(H, g, spinless), g, spinless)
+                worst, wk = close_dicts(s, float_terms(back), float_terms(H))
+                if worst > TOL:
+                    s.violate('inverse_fourier_transform(fourier_transform(H)) != H', c, {'term': wk, 'difference': worst})
+            except Exception as e:  # noqa: BLE001
+                s.violate('Fourier round trip raised', c, repr(e))
+            # ---- two-body: the Fourier transform of plane-wave jellium is dual-basis jellium
+            if nq <= 6:
+                try:
+                    a = of.normal_ordered(ftm.fourier_transform(jm.jellium_model(g, spinless, True), g, spinless))
+                    b = of.normal_ordered(jm.jellium_model(g, spinless, False))
+                    worst, wk = close_dicts(s, float_terms(a), float_terms(b))
+                    s.count('oracle:fourier(jellium)')
+                    if worst > 1e-8:
+                        s.violate('fourier_transform(momentum-space jellium) is not position-space jellium', c, {'term': wk, 'difference': worst})
+                except Exception as e:  # noqa: BLE001
+                    s.violate('fourier_transform(jellium) raised', c, repr(e))
+            # ---- nuclei
+            geom = []
+            for sym in rng.sample(['H', 'He', 'Li', 'C'], 2):
+                frac = numpy.array([rng.randint(-3, 3) / 8 for _ in range(dim)])
+                geom.append((sym, tuple(float(x) for x in S @ frac)))
+            cg = dict(c, geometry=geom)
+            Vp = {}
+            for p_ in pts:
+                tot = 0.0
+                for sym, R in geom:
+                    for m in pts:
+                        k = kvec(m)
+                        k2 = float(k.dot(k))
+                        if k2 == 0:
+                            continue
+                        tot += (-4 * pi / V) / k2 * periodic_hash_table[sym] * math.cos(float(k.dot(numpy.array(R) - rvec(p_))))
+                Vp[p_] = tot
+            oid = {p_: sum(p_[i] * strides[i] for i in range(dim)) for p_ in pts}
+            expect_db = {((oid[p_] * nsp + sp, 1), (oid[p_] * nsp + sp, 0)): Vp[p_] for p_ in pts for sp in range(nsp)}
+            try:
+                ext_db = pwh.dual_basis_external_potential(g, geom, spinless)
+                ext_pw = pwh.plane_wave_external_potential(g, geom, spinless)
+                s.count('oracle:external-potential')
+                worst, wk = close_dicts(s, float_terms(ext_db), expect_db)
+                if worst > TOL:
+                    s.violate('dual_basis_external_potential differs from -4 pi/V sum_j sum_k Z_j cos(k.(R_j - r_p))/k^2', cg,
+                              {'term': wk, 'implementation': float_terms(ext_db).get(wk), 'expected': expect_db.get(wk)})
+                expect_pw = {}
+                D = numpy.diag([Vp[by_oid[v]] for v in range(npts)]).astype(complex)
+                Tt = G.T @ D @ G.conj()
+                for sp in range(nsp):
+                    for m in range(npts):
+                        for n in range(npts):
+                            if abs(Tt[m, n]) > 1e-12:
+                                expect_pw[((m * nsp + sp, 1), (n * nsp + sp, 0))] = Tt[m, n]
+                worst, wk = close_dicts(s, float_terms(ext_pw), expect_pw)
+                if worst > TOL:
+                    s.violate('plane_wave_external_potential is not the inverse Fourier transform of the dual-basis potential', cg,
+                              {'term': wk, 'implementation': float_terms(ext_pw).get(wk), 'expected': expect_pw.get(wk)})
+                for pw in (True, False):
+                    for nonper in (False, True):
+                        Hm = pwh.plane_wave_hamiltonian(g, geom, spinless, pw, False, None, nonper)
+                        J = jm.jellium_model(g, spinless, pw, False, None, nonper)
+                        ext = pwh.plane_wave_external_potential(g, geom, spinless, None, nonper) if pw \
+                            else pwh.dual_basis_external_potential(g, geom, spinless, nonper)
+                        worst, wk = close_dicts(s, float_terms(Hm), float_terms(J + ext))
+                        if worst > TOL:
+                            s.violate('plane_wave_hamiltonian is not jellium_model + external potential', dict(cg, plane_wave=pw),
+                                      {'term': wk, 'difference': worst})
+                    for bad_call, what in ((lambda: pwh.plane_wave_hamiltonian(g, geom, spinless, pw, True), 'include_constant with nuclei'),
+                                           (lambda: pwh.plane_wave_hamiltonian(g, [('H', (0.0,) * (dim + 1))], spinless, pw), 'bad coordinate'),
+                                           (lambda: pwh.plane_wave_hamiltonian(g, [('Xx', (0.0,) * dim)], spinless, pw), 'bad element')):
+                        try:
+                            bad_call()
+                            s.violate('plane_wave_hamiltonian accepts ' + what, cg, None)
+                        except ValueError:
+                            pass
+                        except Exception as e:  # noqa: BLE001
+                            s.violate('plane_wave_hamiltonian raises an undocumented exception for ' + what, cg, repr(e))
+                if pwh.plane_wave_hamiltonian(g, None, spinless, True) != jm.jellium_model(g, spinless, True):
+                    s.violate('plane_wave_hamiltonian without nuclei is not jellium_model', c, None)
+                Q = pwh.jordan_wigner_dual_basis_hamiltonian(g, geom, spinless)
+                R = of.jordan_wigner(pwh.plane_wave_hamiltonian(g, geom, spinless, False))
+                worst, wk = close_dicts(s, float_terms(Q), float_terms(R))
+                if worst > TOL:
+                    s.violate('jordan_wigner_dual_basis_hamiltonian differs from jordan_wigner(plane_wave_hamiltonian(plane_wave=False))', cg,
+                              {'term': wk, 'difference': worst})
+            except Exception as e:  # noqa: BLE001
+                s.violate('external potential / plane_wave_hamiltonian raised', cg, repr(e))
+            # ---- cutoffs
+            sk, sp_ = ctx.driver.run([{'op': 'c13.pw_kinetic_struct', 'length': L, 'spinless': spinless},
+                                      {'op': 'c13.pw_potential_struct', 'length': L, 'spinless': spinless}])
+            k2s = sorted({round(float((B @ numpy.array(n, dtype=float)).dot(B @ numpy.array(n, dtype=float))) / 2.0, 9) for _, n in sk})
+            cuts = [None] + [(a + b) / 2 for a, b in zip(k2s, k2s[1:])][:3] + [k2s[-1] + 1.0]
+            for e_cut in cuts:
+                for nonper, pcut in ((False, None), (True, None), (True, 0.7)):
+                    cc = dict(c, e_cutoff=e_cut, non_periodic=nonper, period_cutoff=pcut)
+                    s.count('oracle:cutoffs')
+                    Rc = pcut if pcut is not None else V ** (1.0 / dim)
+                    ek, ep = {}, {(): 0.0}
+                    for t, n in sk:
+                        k = B @ numpy.array(n, dtype=float)
+                        e = float(k.dot(k)) / 2.0
+                        if e_cut is not None and e > e_cut:
+                            continue
+                        key = tuple((i, a) for i, a in t)
+                        ek[key] = ek.get(key, 0.0) + e
+                    for t, n in sp_:
+                        k = B @ numpy.array(n, dtype=float)
+                        k2 = float(k.dot(k))
+                        if e_cut is not None and k2 / 2.0 > e_cut:
+                            continue
+                        cf = (2 * pi / V) / k2
+                        if nonper:
+                            cf *= 1.0 - math.cos(Rc * math.sqrt(k2))
+                        key = tuple((i, a) for i, a in t)
+                        ep[key] = ep.get(key, 0.0) + cf
+                    try:
+                        Kc = jm.plane_wave_kinetic(g, spinless, e_cut)
+                        Pc = jm.plane_wave_potential(g, spinless, e_cut, nonper, pcut)
+                        Jc = jm.jellium_model(g, spinless, True, False, e_cut, nonper, pcut)
+                    except Exception as e:  # noqa: BLE001
+                        s.violate('plane-wave generator raised with cutoffs', cc, repr(e))
+                        continue
+                    for name, impl, md in (('plane_wave_kinetic', Kc, ek), ('plane_wave_potential', Pc, ep)):
+                        worst, wk = close_dicts(s, float_terms(impl), md)
+                        if worst > TOL:
+                            s.violate(name + ' with cutoffs differs from the documented formula', cc,
+                                      {'term': wk, 'implementation': float_terms(impl).get(wk), 'expected': md.get(wk)})
+                    both = dict(ek)
+                    for k_, v_ in ep.items():
+                        both[k_] = both.get(k_, 0.0) + v_
+                    worst, wk = close_dicts(s, float_terms(Jc), both)
+                    if worst > TOL:
+                        s.violate('jellium_model(plane_wave=True) with cutoffs is not kinetic + potential', cc, {'term': wk, 'difference': worst})
+    # ---- Wigner-Seitz helpers
+    for dimension in (1, 2, 3, 4, 5):
+        for rs in (1.0, 2.5):
+            for n_particles in (1, 3, 10):
+                c = {'call': 'wigner_seitz_length_scale', 'radius': rs, 'n_particles': n_particles, 'dimension': dimension}
+                s.case(c)
+                vol = math.pi ** (dimension / 2.0) / math.gamma(dimension / 2.0 + 1.0) * rs ** dimension
+                want = (vol * n_particles) ** (1.0 / dimension)
+                try:
+                    got = jm.wigner_seitz_length_scale(rs, n_particles, dimension)
+                except Exception as e:  # noqa: BLE001
+                    s.violate('wigner_seitz_length_scale raised', c, repr(e))
+                    continue
+                s.float_comparisons += 1
+                if abs(got - want) > 1e-9 * max(1.0, want):
+                    s.violate('wigner_seitz_length_scale is not (n V_d(r_s))^(1/d) with V_d the volume of the d-ball', c, {'got': got, 'expected': want})
+    for dimension, length, rs, fill, spinless in ((1, 4, 1.5, 0.5, True), (2, 3, 2.0, 0.5, False), (3, 2, 1.0, 0.25, True), (2, 2, 3.0, 1.0, False)):
+        c = {'call': 'hypercube_grid_with_given_wigner_seitz_radius_and_filling', 'dimension': dimension, 'grid_length': length,
+             'radius': rs, 'filling': fill, 'spinless': spinless}
+        s.case(c)
+        try:
+            gg = jm.hypercube_grid_with_given_wigner_seitz_radius_and_filling(dimension, length, rs, fill, spinless)
+            nqb = length ** dimension * (1 if spinless else 2)
+            npart = int(math.floor(nqb * fill))
+            vol = math.pi ** (dimension / 2.0) / math.gamma(dimension / 2.0 + 1.0) * rs ** dimension
+            want = (vol * npart) ** (1.0 / dimension)
+            s.float_comparisons += 1
+            if gg.dimensions != dimension or tuple(gg.length) != (length,) * dimension or abs(gg.volume_scale() - want ** dimension) > 1e-9 * want ** dimension:
+                s.violate('hypercube grid has the wrong shape or volume', c, {'length': list(gg.length), 'volume': float(gg.volume_scale()), 'expected_volume': want ** dimension})
+        except Exception as e:  # noqa: BLE001
+            s.violate('hypercube_grid_with_given_wigner_seitz_radius_and_filling raised', c, repr(e))
+    return s
+
+
+# ---------------------------------------------------------------- stream 7: small helpers
+
+def stream_helpers(ctx):
+    of = ctx.of
+    from openfermion.utils import HubbardSquareLattice
+    from openfermion.hamiltonians import special_operators as so
+    s = Stream('helpers', 'majorana_operator (both types, tuple and string forms) vs the docstring and the Clifford relations through spec.eq; '
+               'number_operator(n_modes) = sum of mode number operators; HubbardSquareLattice index helpers: to/from_site_index and '
+               'to/from_spin_orbital_index inverse of each other, n_*_neighbor_pairs = length of the iterators, delta_mag / '
+               'manhattan_distance vs the lattice metric, dof_pairs_iter')
+    orc = Oracle(ctx, s)
+    # majorana operators
+    n = 3
+    gam = {}
+    for mode in range(n):
+        for typ in (0, 1):
+            c = {'call': 'majorana_operator', 'mode': mode, 'type': typ}
+            s.case(c)
+            try:
+                a = so.majorana_operator((mode, typ), 1.0)
+                b = so.majorana_operator(('c' if typ == 0 else 'd') + str(mode))
+                z = so.majorana_operator((mode, typ), 0.5)
+            except Exception as e:  # noqa: BLE001
+                s.violate('majorana_operator raised', c, repr(e))
+                continue
+            want = {((mode, 1),): (ONE, Fraction(0)), ((mode, 0),): (ONE, Fraction(0))} if typ == 0 else \
+                {((mode, 1),): (Fraction(0), ONE), ((mode, 0),): (Fraction(0), -ONE)}
+            if exact_terms(a) != want or exact_terms(b) != want:
+                s.violate('majorana_operator differs from a^dagger + a / i (a^dagger - a)', c, {'tuple_form': str(a), 'string_form': str(b)})
+            if exact_terms(z) != {k: (v[0] / 2, v[1] / 2) for k, v in want.items()}:
+                s.violate('majorana_operator ignores the coefficient', c, {'operator': str(z)})
+            gam[(mode, typ)] = enc_op('fermion', a.terms)
+    one = leaf([[[], [1, 1, 0, 1]]])
+    for ka, A in gam.items():
+        for kb, Bop in gam.items():
+            c = {'call': 'majorana anticommutator', 'a': list(ka), 'b': list(kb)}
+            anti = ['add', ['mul', leaf(A), leaf(Bop)], ['mul', leaf(Bop), leaf(A)]]
+            rhs = ['smul', [2, 1, 0, 1], one] if ka == kb else ['smul', [0, 1, 0, 1], one]
+            orc.add('majorana operators do not satisfy {g_a, g_b} = 2 delta_ab', c, spec_eq('fermion', n, anti, rhs))
+    for bad in (('x1',), ((1, 2),), (5,)):
+        try:
+            so.majorana_operator(*bad)
+            s.violate('majorana_operator accepts an invalid specification', {'call': 'majorana_operator', 'term': repr(bad)}, None)
+        except ValueError:
+            pass
+        except Exception as e:  # noqa: BLE001
+            s.violate('majorana_operator raises an undocumented exception', {'call': 'majorana_operator', 'term': repr(bad)}, repr(e))
+    if exact_terms(so.majorana_operator()) != {}:
+        s.violate('majorana_operator() is not the zero operator', {'call': 'majorana_operator'}, None)
+    # total number operator
+    for parity in (-1, 1):
+        for nm in (0, 1, 4):
+            c = {'call': 'number_operator', 'n_modes': nm, 'parity': parity}
+            s.case(c)
+            try:
+                N = so.number_operator(nm, None, 0.5, parity)
+            except Exception as e:  # noqa: BLE001
+                s.violate('number_operator raised', c, repr(e))
+                continue
+            if exact_terms(N) != {((m, 1), (m, 0)): (HALF, Fraction(0)) for m in range(nm)} or \
+                    type(N) is not (of.FermionOperator if parity == -1 else of.BosonOperator):
+                s.violate('number_operator(n_modes) is not the sum of the mode number operators', c, {'operator': str(N)})
+    try:
+        so.number_operator(2, 0, 1.0, 0)
+        s.violate('number_operator accepts parity 0', {'call': 'number_operator'}, None)
+    except ValueError:
+        pass
+    # lattice helpers
+    for (x, y) in [(1, 1), (1, 4), (2, 2), (2, 3), (3, 2), (3, 3), (4, 5)]:
+        for periodic in (True, False):
+            for n_dofs, spinless in ((1, False), (2, True), (3, False)):
+                lat = HubbardSquareLattice(x, y, n_dofs=n_dofs, spinless=spinless, periodic=periodic)
+                c = {'x': x, 'y': y, 'periodic': periodic, 'n_dofs': n_dofs, 'spinless': spinless}
+                s.case(c)
+                try:
+                    bad = []
+                    for i in range(lat.n_sites):
+                        if lat.to_site_index(lat.from_site_index(i)) != i or tuple(lat.from_site_index(i)) != (i % x, i // x):
+                            bad.append(('site index', i))
+                    seen = set()
+                    for i in range(lat.n_sites):
+                        for d in range(n_dofs):
+                            for sp in lat.spin_indices:
+                                o = lat.to_spin_orbital_index(i, d, sp)
+                                if tuple(lat.from_spin_orbital_index(o)) != (i, d, sp) or not 0 <= o < lat.n_spin_orbitals:
+                                    bad.append(('spin orbital index', (i, d, sp)))
+                                seen.add(o)
+                    if len(seen) != lat.n_spin_orbitals:
+                        bad.append(('spin orbital indices are not a bijection', len(seen)))
+                    for o in (True, False):
+                        if lat.n_horizontal_neighbor_pairs(o) != len(list(lat.horizontal_neighbors_iter(o))) or \
+                                lat.n_vertical_neighbor_pairs(o) != len(list(lat.vertical_neighbors_iter(o))) or \
+                                lat.n_neighbor_pairs(o) != len(list(lat.neighbors_iter(o))):
+                            bad.append(('n_*_neighbor_pairs', o))
+                    if list(lat.dof_pairs_iter(False)) != [(a, b) for a in range(n_dofs) for b in range(a, n_dofs)] or \
+                            list(lat.dof_pairs_iter(True)) != [(a, b) for a in range(n_dofs) for b in range(a + 1, n_dofs)]:
+                        bad.append(('dof_pairs_iter', None))
+                    for i in range(lat.n_sites):
+                        for j in range(lat.n_sites):
+                            (xi, yi), (xj, yj) = (i % x, i // x), (j % x, j // x)
+                            dx, dy = abs(xi - xj), abs(yi - yj)
+                            if periodic:
+                                dx, dy = min(dx, x - dx), min(dy, y - dy)
+                            if tuple(lat.delta_mag(i, j, True)) != (dx, dy) or lat.manhattan_distance(i, j, True) != dx + dy:
+                                bad.append(('delta_mag / manhattan_distance', (i, j)))
+                    if bad:
+                        s.violate('HubbardSquareLattice helper disagrees with the lattice geometry', c, {'first': bad[:3]})
+                except Exception as e:  # noqa: BLE001
+                    s.violate('HubbardSquareLattice helper raised', c, repr(e))
+    orc.flush()
+    return s
+
+
 # ---------------------------------------------------------------- known findings
 
 def sheared_even_class(c):
@@ -1175,7 +1537,7 @@ def replay(ctx, payload):
     if stream == 'fermi-hubbard-model':
         return not stream_fhm(ctx, E, only=case).violations
     # deterministic streams: run them again (with and without escalated budgets) and look for the same input
-    runner = {'spin-operators': stream_spin, 'grid-jellium': stream_grid, 'richardson-gaudin': stream_rg}.get(stream)
+    runner = {'spin-operators': stream_spin, 'grid-jellium': stream_grid, 'richardson-gaudin': stream_rg, 'fourier-planewave': stream_planewave, 'helpers': stream_helpers}.get(stream)
     if runner is None:
         return None
     found_input = False
@@ -1196,4 +1558,4 @@ def json_norm(x):
 
 def run(ctx):
     E = Edges(ctx)
-    return [stream_bonds(ctx, E), stream_hubbard(ctx, E), stream_fhm(ctx, E), stream_spin(ctx), stream_rg(ctx), stream_grid(ctx)]
+    return [stream_bonds(ctx, E), stream_hubbard(ctx, E), stream_fhm(ctx, E), stream_spin(ctx), stream_rg(ctx), stream_grid(ctx), stream_planewave(ctx), stream_helpers(ctx)]
